@@ -44,6 +44,9 @@ type SvcConfig struct {
 	Ifaces []string          // registered scripted interfaces, in registration order
 	Descs  map[string]string // interface name → description (incl. org.varlink.service when known)
 	Ident  [4]string
+	// DontCareAccept: how error names with an empty <Name> part ("x.", "org.varlink.service.") are treated,
+	// which the statement leaves open: true = sent like any other name, false = refused.
+	DontCareAccept bool
 }
 
 func (c SvcConfig) registered(name string) bool {
@@ -216,7 +219,15 @@ func ModelConn(cfg SvcConfig, frames [][]byte) (exp []ExpFrame, inv []ExpInv, al
 						emit(ci, wc.Oneway, f)
 					}
 				case "error":
-					switch ErrorNameClass(op.Name) {
+					cls := ErrorNameClass(op.Name)
+					if cls == "dontcare" {
+						if cfg.DontCareAccept {
+							cls = "accept"
+						} else {
+							cls = "refuse"
+						}
+					}
+					switch cls {
 					case "accept":
 						f := ExpFrame{Kind: "error", Error: op.Name}
 						if op.P != nil && string(op.P) != "null" {
